@@ -236,6 +236,17 @@ def gen_nomtime_history(rng):
     return {"stream": "mtime-check-off", "libs": [], "step_ns": 10**6, "ops": ops}
 
 
+def gen_codegen_rebuild_history(rng):
+    """codegen in ONE process: compile, hit (libraries loaded), edit the source and rebuild at the same paths, hit.
+    No model of an earlier step is kept alive (that would be finding C20-F2), so the last hit must be the new code."""
+    a = "model M\n  parameter Real p = 1;\n  Real x;\n  Real y;\nequation\n  der(x) = -p*x;\n  y = %s*x + p;\nend M;\n"
+    k1, k2 = rng.sample(["2", "3", "5", "0.5", "8"], 2)
+    ops = [["write", 0, "M.mo", a % k1, 1], ["options", {}], ["transfer", "codegen"], ["transfer", "codegen"],
+           ["write", 0, "M.mo", a % k2, 1], ["transfer", "codegen"], ["transfer", "codegen"],
+           ["options", {"detect_aliases": True}], ["transfer", "codegen"], ["transfer", "codegen"]]
+    return {"stream": "codegen-rebuild", "libs": [], "step_ns": 10**6, "ops": ops}
+
+
 def gen_f2_history(rng):
     """C20-F2: a CachedModel loaded from the shared libraries is alive while they are rebuilt."""
     a = "model M\n  parameter Real p = 1;\n  Real x;\nequation\n  x = %s*p;\nend M;\n"
@@ -319,7 +330,7 @@ def run_history(ctx, hist, drv, hid):
                 if df:
                     ctx.violation("transfer_model returned a model that differs from a fresh compile of the current sources "
                                   "(decision: %s): %s" % (kind, df[0]), case, expected="fresh compile", observed=df, kind="history")
-                    if hist["stream"] in ("main", "option-sweep", "thorough-codegen", "mtime-check-off") or hist["stream"].startswith("library-edit"):
+                    if hist["stream"] in ("main", "option-sweep", "thorough-codegen", "mtime-check-off", "codegen-rebuild") or hist["stream"].startswith("library-edit"):
                         return
             else:
                 raise HarnessError("unknown op " + str(k))
@@ -371,6 +382,10 @@ def run(ctx):
         hid += 1
         ctx.count("stream:library-edit:" + variant)
         run_history(ctx, gen_libedit_history(ctx.rng, variant), drv, hid)
+    for _ in range(1 if quick else 4):
+        hid += 1
+        ctx.count("stream:codegen-rebuild")
+        run_history(ctx, gen_codegen_rebuild_history(ctx.rng), drv, hid)
     for _ in range(1 if quick else 8):
         hid += 1
         ctx.count("stream:mtime-check-off")
